@@ -38,6 +38,8 @@ inductive Sys where
   | rename (a b : Name)
   | link (a b : Name)
   | remove (p : Name)
+  | openKeep (p : Name)            -- open(O_WRONLY|O_CREAT) WITHOUT O_TRUNC (negative witness only)
+  | overwrite (p : Name) (d : Bytes) -- write at offset 0 of an untruncated file (negative witness only)
 deriving DecidableEq, Repr
 
 def apply (fs : FS) : Sys → FS
@@ -60,6 +62,14 @@ def apply (fs : FS) : Sys → FS
     | some c, none => fs ++ [(b, c)]
     | _, _ => fs
   | .remove p => erase fs p
+  | .openKeep p =>
+    match get fs p with
+    | some _ => fs
+    | none => set fs p []
+  | .overwrite p d =>
+    match get fs p with
+    | some c => set fs p (d ++ c.drop d.length)
+    | none => fs
 
 /-- The state a restart finds when the process was killed after the first `k` calls of `prog`. -/
 def crash (prog : List Sys) (k : Nat) (fs : FS) : FS := (prog.take k).foldl apply fs
@@ -87,6 +97,10 @@ def updateProg (tmp : Name) (fs : FS) (old new : Name) (d : Bytes) : List Sys :=
 
 /-- NEGATIVE WITNESS program: `os.WriteFile` directly on the live file. -/
 def directWrite (p : Name) (new : Bytes) : List Sys := writeFile p new
+
+/-- NEGATIVE WITNESS program: write-temp-then-rename whose temp file is opened WITHOUT `O_TRUNC`. -/
+def tempRenameNoTrunc (tmp p : Name) (new : Bytes) : List Sys :=
+  [.openKeep tmp, .overwrite tmp new, .close tmp, .rename tmp p]
 
 /-- What a loader that lists the directory sees: the entries whose name passes `vis`. -/
 def view (vis : Name → Bool) (fs : FS) : FS := fs.filter fun e => vis e.1
